@@ -186,7 +186,8 @@ func famReg() {
 			fetchers := []struct {
 				name string
 				f    eval.VariableFetcher
-			}{{"auto", ctxAuto.VariableFetcher}, {"map", eval.NewMapVarFetcher(vals)}}
+			}{{"auto", ctxAuto.VariableFetcher}, {"map", eval.NewMapVarFetcher(vals)},
+				{"tovaluemap", eval.MapVarFetcher(eval.ToValueMap(vals))}}
 			minK, maxK := 1<<20, -(1 << 20)
 			for _, k := range cc.VariableKeyMap {
 				if int(k) < minK {
